@@ -6,14 +6,14 @@ import subprocess
 from . import invoker
 
 
-def git_env(home, date):
+def git_env(home, date, global_config=None):
     if not (1971 <= date.year <= 2098):
         # git cannot store every simulated date; map the others deterministically into its range
         import datetime as _dt
         date = _dt.date(1971, 1, 1) + _dt.timedelta(days=date.toordinal() % 40000)
     stamp = "%sT12:00:00 +0000" % date.isoformat()
     return {
-        "GIT_CONFIG_GLOBAL": "/dev/null", "GIT_CONFIG_SYSTEM": "/dev/null", "GIT_CONFIG_NOSYSTEM": "1",
+        "GIT_CONFIG_GLOBAL": global_config or "/dev/null", "GIT_CONFIG_SYSTEM": "/dev/null", "GIT_CONFIG_NOSYSTEM": "1",
         "HOME": home, "GIT_TERMINAL_PROMPT": "0", "GIT_AUTHOR_NAME": "Sim Actor", "GIT_AUTHOR_EMAIL": "sim@example.com",
         "GIT_COMMITTER_NAME": "Sim Actor", "GIT_COMMITTER_EMAIL": "sim@example.com",
         "GIT_AUTHOR_DATE": stamp, "GIT_COMMITTER_DATE": stamp, "LC_ALL": "C.UTF-8", "LANG": "C.UTF-8",
@@ -22,17 +22,23 @@ def git_env(home, date):
 
 
 class RealGit:
-    def __init__(self, path, date, remote=True, gitfile=False):
+    def __init__(self, path, date, remote=True, gitfile=False, user_config=None):
         self.path = path
         self.date = date
         self.home = os.path.dirname(path)
+        self.global_config = None
+        if user_config:
+            # the user's own ~/.gitconfig (pinned content): settings that change what git prints or does by default
+            self.global_config = path + ".gitconfig"
+            with open(self.global_config, "w") as fobj:
+                fobj.write(user_config)
         self.remote_path = None
         self.has_remote = remote
         self.gitfile = gitfile      # `.git` is a file ("gitdir: ..."), as in linked worktrees, submodules, --separate-git-dir
 
     @property
     def env(self):
-        return git_env(self.home, self.date)
+        return git_env(self.home, self.date, self.global_config)
 
     def set_date(self, date):
         self.date = date
@@ -95,7 +101,8 @@ class RealGit:
         return self.git("log", "-1", "--format=%B", rev)
 
     def status(self):
-        return self.git("status", "--porcelain")
+        # (the harness's own view must not depend on the user configuration under test)
+        return self.git("-c", "status.showUntrackedFiles=normal", "-c", "color.ui=false", "status", "--porcelain")
 
     def state_digest(self):
         return invoker.digest_snapshot({"refs": self.git("show-ref", check=False).encode(),
